@@ -28,7 +28,7 @@ func (c c13Case) String() string {
 }
 
 var singleCatalogue = []string{
-	"honest", "other-height", "wrong-chain", "invalid", "not-found", "unknown-status", "negative-status", "invalid-status",
+	"honest", "other-height", "wrong-chain", "empty-chain", "invalid", "not-found", "unknown-status", "negative-status", "invalid-status",
 	"empty-close", "truncated-frame", "oversized-prefix", "random-bytes", "malformed-frame", "garbage-body", "empty-body",
 	"two-responses", "hang", "reset",
 }
@@ -40,7 +40,7 @@ func c13Valid(kind string, c c13Case) bool {
 		return c.Target == "present"
 	case "other-height":
 		return c.Target != "zero" // a well-formed header of the right chain, just not the requested one
-	case "wrong-chain":
+	case "wrong-chain", "empty-chain":
 		return !c.ChainID && c.Target == "present" // without a configured chain id nothing binds the chain
 	}
 	return false
@@ -216,7 +216,7 @@ func identity(n int) []int {
 func TestC13(t *testing.T) {
 	run := vk.NewRun("C13", "fault_enumeration")
 	defer run.Finish()
-	run.SetRule("real Exchange.Get/GetByHeight over mocknet against 1..3 (thorough: 4) scripted trusted peers: every assignment of per-peer answers from a 17-entry catalogue (honest, other header, wrong chain, invalid, NOT_FOUND, unknown/INVALID status, empty close, truncated/oversized/malformed frame, random bytes, garbage/empty body, two responses, hang, reset) x {Get,GetByHeight} x target {present, absent, zero} x chain id {set, unset}; arrival order imposed by release gates (all permutations for the reduced catalogue); distinct = (method, target, multiset of answers, outcome)")
+	run.SetRule("real Exchange.Get/GetByHeight over mocknet against 1..3 (thorough: 4) scripted trusted peers: every assignment of per-peer answers from a 19-entry catalogue (honest, other header, wrong chain, invalid, NOT_FOUND, unknown/INVALID status, empty close, truncated/oversized/malformed frame, random bytes, garbage/empty body, two responses, hang, reset) x {Get,GetByHeight} x target {present, absent, zero} x chain id {set, unset}; arrival order imposed by release gates (all permutations for the reduced catalogue); distinct = (method, target, multiset of answers, outcome)")
 	run.Assume("a header type whose UnmarshalBinary itself panics is excluded here (type-level bug); height binding of GetByHeight answers is not part of the statement")
 
 	var rc c13Case
